@@ -135,12 +135,15 @@ func (s *sliceMachine) Discard(ctx context.Context, task *Task) {
 	if !ok {
 		return
 	}
-	// s exclusively owns task's state during this time, so this does not race
-	// with anything else.
-	task.Set(TaskLost)
+	// s exclusively owns task's state during this time (it is TaskRunning), so
+	// this does not race with anything else. The task is marked lost only
+	// after the worker has discarded it: a concurrent evaluator resubmits the
+	// task as soon as it is lost, and a run that reaches the worker before the
+	// discard would be considered done there and then have its output discarded.
 	if err := s.RetryCall(ctx, "Worker.Discard", task.Name, nil); err != nil {
 		log.Error.Printf("error discarding %v: %v", task, err)
 	}
+	task.Set(TaskLost)
 }
 
 // Go manages a sliceMachine: it polls stats at regular intervals and
